@@ -3,6 +3,7 @@ import Driver.NfaHist
 import Driver.TaHist
 import Driver.MtHist
 import Driver.BddChk
+import Driver.ParseChk
 import Vata.Proofs.LtsSim
 /-!
 # vdriver – the model side of the correspondence check
@@ -332,6 +333,7 @@ def dispatch (kind : String) (args res : List String) : Except String (Findings 
   | "lts" => checkLts args res
   | "tah" => TaHist.check args res
   | "mth" => MtHist.check false args res
+  | "parse" => ParseChk.check args res
   | "bddincl" => BddChk.checkIncl args res
   | "bddinclall" => BddChk.checkInclAll args res
   | "bddh" => BddChk.checkHist args res
